@@ -10,6 +10,15 @@ from lib import common, sched, inputs, lbzx, build
 
 LEVEL = 'model_checking'
 
+def _nthr(c):
+    """threads of a cell: main, reader, writer and W workers; the copy pipeline has no workers"""
+    if any(a in ('-cdf',) for a in c.args) and c.leg.startswith('copy'):
+        return 3
+    for a in c.args:
+        if a.startswith('-n') and a[2:].isdigit():
+            return int(a[2:]) + 3
+    return 99
+
 def run(tier):
     chk = common.Check('C03', LEVEL, tier, quick_deadline=170, thorough_deadline=1700)
     ex = sched.Explorer(chk, par=4, jobs=4)
@@ -82,6 +91,7 @@ def run(tier):
                     wf = max(7, len(exp) // 400)      # keep the number of write() calls well inside the harness horizon
                 frag.add('frag-policy', 'fast', ['-n%d' % W, lvl] + mode, data, orc,
                          '%s W=%d rfrag=%d wfrag=%d' % (desc0, W, rf, wf), {'rfrag': rf, 'wfrag': wf, 'horizon': 5900})
+    ex.run_priorities(_nthr, cells=[c for c in ex.cells if _nthr(c) <= (5 if quick else 6)])
     maxd = 2 if quick else 3
     done = 0
     frag.run_pass(1 if quick else 1)
